@@ -157,10 +157,12 @@ class _LazyEnv(dict):
             import interp
             try:
                 v = self.it.ev(d, self)
+                dict.__setitem__(self, key, v)
+                return v
             except interp.Undecided:
-                raise KeyError(key)
-            dict.__setitem__(self, key, v)
-            return v
+                # a boolean computed from the input (`let not = match self.next_lexem() {..}`) is a flag like any other
+                if self.locs.types.get(key) not in ("bool", "&bool"):
+                    raise KeyError(key)
         if self.locs.types.get(key) in ("bool", "&bool"):
             self.flag_names.add(key.split(":")[1])
             dict.__setitem__(self, key, self.flag_value)
